@@ -195,9 +195,21 @@ def wl_expanding(ctx, rng, case):
         elif r < 0.9:
             f.push()
             case.op("push")
+        elif r < 0.95:
+            f.pop() if rotating and f.current_queue_size > 1 else f.push()
+            case.op("pop-or-push")
         else:
-            f = cls.frombytes(bytes(f), **extra, **bl.kw_hash(hf))
-            case.op("reload")
+            if rotating and rng.random() < 0.4:
+                # the queue limit is re-supplied with ANOTHER value (smaller or larger than the number of stored filters)
+                extra = {"max_queue_size": rng.randint(1, 6)}
+                ctx.count("rotating_reloads_with_another_queue_limit")
+            if rng.random() < 0.5:
+                f = cls.frombytes(bytes(f), **extra, **bl.kw_hash(hf))
+            else:
+                pth = os.path.join(ctx.tmpdir(), f"c14-exp-{os.getpid()}.bin")
+                f.export(pth)
+                f = cls(filepath=pth, **extra, **bl.kw_hash(hf))
+            case.op("reload", extra)
         ctx.check(f.elements_added == calls, f"elements_added is not the number of add calls after step {step} ({case.ops[-1][0]})", got=f.elements_added, want=calls)
         ctx.count("counter_checks")
     case.nontrivial = calls > 0
